@@ -221,7 +221,7 @@ def emitIW (fw bg wmb single txt : Bool) (kids : List SChild) : List Tok :=
   (if fw then [o table, o tbody, o tr, o td] ++
      (if bg then [co, o vrect, v vfill, o vtextbox, o table, o tr, o td, cc] else []) else []) ++
   (if wmb then [co, o table, o tr, o td, cc] else []) ++
-  (if bg && !fw then [o vrect, v vfill, o vtextbox] else []) ++
+  (if bg && !fw then [co, o vrect, v vfill, o vtextbox, cc] else []) ++
   innerToks bg single txt kids ++
   (if wmb then [co, c td, c tr, c table, cc] else []) ++
   (if bg && !fw then [co, c vtextbox, c vrect, cc] else []) ++
@@ -343,9 +343,10 @@ def bodyLoop (bs : List Block) (p : Bool) : List Tok := join [] (blockOuts bs p)
 
 def render (bs : List Block) : List Tok := [o div] ++ bodyLoop bs false ++ [c div]
 
-/-- a wrapper the Outlook hand-over handles: plain sections and raws, not only blank raws -/
+/-- a wrapper the Outlook hand-over handles: sections that are not full-width (background images allowed) and raws, not only
+    blank raws -/
 def Wrapper.tame (w : Wrapper) : Prop :=
-  (∀ s ∈ secsOf w.kids, s.fw = false ∧ s.bg = false) ∧
+  (∀ s ∈ secsOf w.kids, s.fw = false) ∧
   (w.kids = [] ∨ w.kids.any (fun c => match c with | .sec _ => true | .raw b => !b) = true)
 
 /-- the tame fragment: while the Outlook comment is pending only a non-full-width section or wrapper may
@@ -622,9 +623,21 @@ theorem emitIW_plain (split txt : Bool) (kids : List SChild) :
     emitIW false false false split txt kids = innerToks false split txt kids := by
   simp [emitIW]
 
+/-- a section that is not full-width, inside a wrapper that did not delegate its background: neutral, with or without a
+    background image (the VML opening and closing each sit in their own conditional) -/
+theorem emitIW_nfw_neutral (bg split txt : Bool) (kids : List SChild) : Neutral (emitIW false bg false split txt kids) := by
+  intro sd al
+  cases bg
+  · rw [emitIW_plain]; exact inner_neutral _ _ _ _ sd al
+  · have : emitIW false true false split txt kids =
+        [co, o vrect, v vfill, o vtextbox, cc] ++ innerToks true split txt kids ++ [co, c vtextbox, c vrect, cc] := by
+      simp [emitIW]
+    rw [this]
+    exact sandwich _ _ _ false false _ _ (by rfl) (inner_neutral _ _ _ _) (by rfl) sd al
+
 /-- children of a tame wrapper keep Outlook's two wrapper cells on the stack -/
 theorem wKids_run (wbgc : Bool) : ∀ (kids : List WChild) (prev : Prev) (sd al : List Tag),
-    (∀ s ∈ secsOf kids, s.fw = false ∧ s.bg = false) → (∀ pfw, prev = .sec pfw → pfw = false) →
+    (∀ s ∈ secsOf kids, s.fw = false) → (∀ pfw, prev = .sec pfw → pfw = false) →
     run ⟨false, sd, w6 ++ al⟩ (wKids true false false wbgc prev kids) = some ⟨false, sd, w6 ++ al⟩
   | [], _, sd, al, _, _ => rfl
   | .raw b :: r, prev, sd, al, hs, _ => by
@@ -649,27 +662,27 @@ theorem wKids_run (wbgc : Bool) : ∀ (kids : List WChild) (prev : Prev) (sd al 
         simpa [wTrans] using frameA [co, c td, c tr, c table, c td, c tr, o tr, o td, o table, o tr, o td, cc] w6 w6 (by rfl) sd al
     rw [htrans]
     simp only [Option.bind_some]
-    rw [hsf.1, hsf.2]
-    simp only [Bool.false_and, Bool.and_false, emitIW_plain]
-    rw [inner_neutral]
+    rw [hsf]
+    simp only [Bool.false_and, Bool.and_false]
+    rw [emitIW_nfw_neutral]
     simp only [Option.bind_some]
     exact wKids_run wbgc r (.sec false) sd al (fun s' hs' => hs s' (by simp [secsOf, hs']))
       (by intro pfw h; cases h; rfl)
 
-theorem secs_any_fw (kids : List WChild) (h : ∀ s ∈ secsOf kids, s.fw = false ∧ s.bg = false) :
+theorem secs_any_fw (kids : List WChild) (h : ∀ s ∈ secsOf kids, s.fw = false) :
     (secsOf kids).any (·.fw) = false := by
-  simp only [List.any_eq_false]; intro s hs; simp [(h s hs).1]
+  simp only [List.any_eq_false]; intro s hs; simp [h s hs]
 
-theorem secs_any_fwbg (kids : List WChild) (h : ∀ s ∈ secsOf kids, s.fw = false ∧ s.bg = false) :
+theorem secs_any_fwbg (kids : List WChild) (h : ∀ s ∈ secsOf kids, s.fw = false) :
     (secsOf kids).any (fun s => s.fw && s.bg) = false := by
-  simp only [List.any_eq_false]; intro s hs; simp [(h s hs).1]
+  simp only [List.any_eq_false]; intro s hs; simp [h s hs]
 
-theorem secs_outer (kids : List WChild) (h : ∀ s ∈ secsOf kids, s.fw = false ∧ s.bg = false) :
+theorem secs_outer (kids : List WChild) (h : ∀ s ∈ secsOf kids, s.fw = false) :
     (!(secsOf kids).isEmpty && (secsOf kids).all (fun s => s.fw && s.bg)) = false := by
   cases hk : secsOf kids with
   | nil => simp
   | cons s r =>
-    have := (h s (by simp [hk])).1
+    have := h s (by simp [hk])
     simp [this]
 
 /-- the Outlook part of a tame wrapper is neutral -/
@@ -886,7 +899,7 @@ example : WF (render [.section ⟨false, false, false, false, false, false, [.co
 
 /-- the full statements are still false of the code — kernel-checked counterexamples, one per recorded class (all inside
     wrappers: the wrapper <-> section Outlook hand-over) -/
-example : ¬ WF (render [.wrapper ⟨false, false, [.sec ⟨false, true, false, false, false, false, [.col ⟨false, [.text]⟩]⟩]⟩]) := by
+example : ¬ WF (render [.wrapper ⟨false, false, [.sec ⟨true, false, false, false, true, false, [.col ⟨false, [.text]⟩]⟩]⟩]) := by
   unfold WF; decide
 example : ¬ WF (render [.wrapper ⟨false, false, [.raw true]⟩]) := by
   unfold WF; decide
